@@ -59,6 +59,11 @@ def handle (line : String) : String :=
     | "date_sub" => out3 r.case (toJson (emulDateSub (g r.d) (g r.n))) (toJson (sparkDateSub (g r.d) (g r.n))) []
     | "array_min" => out3 r.case (optInt (emulArrayMinSorted xs)) (optInt xs.min?) []
     | "array_max" => out3 r.case (optInt (emulArrayMaxSorted xs)) (optInt xs.max?) []
+    | "soundex" =>
+      let cs := (r.str.getD "").toList.map Char.toNat
+      let dec (l : List Nat) : String := String.ofList (l.map Char.ofNat)
+      out3 r.case (toJson (dec (emulSoundexN cs))) (toJson (dec (sparkSoundexN cs)))
+        (scopeIf (!(soundexFirstLetterB cs) && !cs.isEmpty) "H_soundexFirstLetter")
     | "duck_factorial" => outP r.case (toJson (duckFactorial (g r.n).toNat))
     | "duck_index" => outP r.case (optInt (duckIndex xs (g r.k)))
     | "duck_list_slice" => outP r.case (ints (duckListSlice xs (g r.a) (g r.b)))
